@@ -1687,14 +1687,14 @@ class Fxp():
                 imag_val = [utils.hex_repr(utils.binary_repr(utils.int_array(val.imag), n_word=self.n_word, n_frac=None), n_word=hex_n_word, base=2, prefix=prefix) for val in self.val]
                 rval = utils.complex_repr(real_val, imag_val)
             else:
-                rval = [utils.hex_repr(val, n_word=hex_n_word, base=2, prefix=prefix) for val in self.bin()]
+                rval = [utils.hex_repr(val, n_word=hex_n_word, base=2, prefix=prefix) for val in self.bin(prefix='')]     # (the digits only: a configured binary prefix is not part of them)
         else:
             if self.vdtype == complex:
                 real_val = utils.hex_repr(utils.binary_repr(utils.int_array(self.val.real), n_word=self.n_word, n_frac=None), n_word=hex_n_word, base=2, prefix=prefix)
                 imag_val = utils.hex_repr(utils.binary_repr(utils.int_array(self.val.imag), n_word=self.n_word, n_frac=None), n_word=hex_n_word, base=2, prefix=prefix)
                 rval = utils.complex_repr(real_val, imag_val)
             else:
-                rval = utils.hex_repr(self.bin(), n_word=hex_n_word, base=2, prefix=prefix)
+                rval = utils.hex_repr(self.bin(prefix=''), n_word=hex_n_word, base=2, prefix=prefix)
         return rval
     
     def base_repr(self, base, frac_dot=False):
